@@ -9,7 +9,12 @@ import hashlib
 import json
 import random
 import signal
+import sys
 import time
+
+# interpreter / process conditions of this shard (recorded with every
+# violation so that a replay can reproduce them)
+ENV = {'optimize': 0, 'warmup': False}
 
 
 def jsonable(x):
@@ -170,6 +175,8 @@ class Obs(object):
                 'mechanism': mechanism,
                 'case': jsonable(case),
                 'detail': jsonable(detail),
+                'env': {'optimize': sys.flags.optimize,
+                        'warmup': bool(ENV.get('warmup'))},
             })
 
     def inconclusive_because(self, reason):
